@@ -718,10 +718,79 @@ PHASED = {
     # recorded as updated, then the directory above it moves away (same phase) and a later phase
     "updated-then-parent-moved": (_S2, [[[["write", "d1/s1.txt", "T"]], [["mv", "d1", "d9"]]], [[["mv", "d9", "d1"]]]]),
 }
+# requested directories (base of a pattern without wildcard directory) whose nearest existing ancestor is 2..4
+# levels up when the pattern is registered: dir_loop has to record EVERY missing level as a pending watch so that
+# the levels, created one by one while watching, get their watches all the way down
+_DEEP2 = {"static": {"a.txt": "A"}, "globs": [{"step": "./plan.py", "pattern": "inputs/raw/*.csv"}]}
+_DEEP3 = {"dirs": ["in"], "static": {"a.txt": "A"}, "globs": [{"step": "./plan.py", "pattern": "in/p/q/r/*.csv"}]}
+PHASED.update({
+    "deep-missing-2-levels-one-by-one": (_DEEP2, [[[["mkdir", "inputs"]], [["mkdir", "inputs/raw"]],
+                                                   [["write", "inputs/raw/a.csv", "1"]]]]),
+    "deep-missing-2-levels-at-once": (_DEEP2, [[[["mkdir", "inputs"], ["mkdir", "inputs/raw"],
+                                                 ["write", "inputs/raw/a.csv", "1"]]]]),
+    "deep-missing-3-levels-below-existing": (_DEEP3, [[[["mkdir", "in/p"]], [["mkdir", "in/p/q"]], [["mkdir", "in/p/q/r"]],
+                                                       [["write", "in/p/q/r/x.csv", "1"]]],
+                                                      [[["write", "in/p/q/r/x.csv", "2"]], [["write", "in/p/q/r/y.csv", "3"]]]]),
+})
+SIG_DEEP = "watch-vs-restart:watchset:missing-ancestor-of-requested-directory-not-pending"
+
+
+def _rand_deep(rng):
+    """A pattern `<e1>/../<m1>/../<mk>/*.csv` with 0-1 existing and 2-4 missing levels; the missing levels are
+    created top-down while watching, in random groups per batch, then a matching file (and sometimes a second
+    phase that edits it / adds another one)."""
+    names = ["da", "db", "dc", "dd", "de"]
+    rng.shuffle(names)
+    ne, nm = rng.randint(0, 1), rng.randint(2, 4)
+    levels = ["/".join(names[:i + 1]) for i in range(ne + nm)]
+    base = levels[-1]
+    spec = {"dirs": levels[:ne], "static": {"a.txt": "A"}, "globs": [{"step": "./plan.py", "pattern": base + "/*.csv"}]}
+    if rng.random() < 0.3:
+        spec["globs"].append({"step": "./plan.py", "pattern": levels[ne] + "/*.txt"})
+    ops = [["mkdir", d] for d in levels[ne:]] + [["write", base + "/m.csv", "1"]]
+    batches, cur = [], []
+    for op in ops:
+        cur.append(op)
+        if rng.random() < 0.7:
+            batches.append(cur)
+            cur = []
+    if cur:
+        batches.append(cur)
+    phases = [batches]
+    if rng.random() < 0.5:
+        phases.append([[["write", base + "/m.csv", "2"]], [["write", base + "/n.csv", "3"]]])
+    return spec, phases
+
+
 PHASED_EXPECT = {"W1-stale-subdirectory-watch": SIG_W1, "W2-late-IGNORED": SIG_W2}
 
 
-async def _phased_history(spec, phases):
+def _synthetic_apply(w, op):
+    """Synthetic inotify (c14_driver.FakeInotify): apply the operation and queue the events the kernel would deliver
+    (documented rows of model/Watch.v; mkdir / write / rm only), decided by which directories the wrapper has
+    asked to watch SO FAR (add_watch minus rm_watch), i.e. at the time of the operation."""
+    from asyncinotify import Mask
+    ino = w.inotify
+    parent = os.path.dirname(op[1]) or "."
+    watched = ino.added.count(parent) > ino.removed.count(parent)
+    existed = os.path.exists(op[1])
+    if not D.apply_op(op):
+        return
+    if not watched:
+        return
+    if op[0] == "mkdir":
+        masks = [Mask.CREATE | Mask.ISDIR]
+    elif op[0] == "write":
+        masks = ([] if existed else [Mask.CREATE]) + [Mask.MODIFY, Mask.CLOSE_WRITE]
+    elif op[0] == "rm":
+        masks = [Mask.DELETE]
+    else:
+        raise ValueError(f"synthetic inotify: operation {op!r} not supported")
+    for m in masks:
+        ino.queue.put_nowait(D.FakeEvent(m, op[1]))
+
+
+async def _phased_history(spec, phases, synthetic=False):
     res = {"phases": [], "error": None}
     with tempfile.TemporaryDirectory() as tmp:
         root = os.path.join(tmp, "proj")
@@ -731,17 +800,22 @@ async def _phased_history(spec, phases):
             with D.open_stack_db(os.path.join(tmp, "a.db")) as db:
                 st = await D.Stack(db, dq).init()
                 await D.build_project(st, spec)
-                async with D.wrapper_ctx(dq) as w:
+                async with D.wrapper_ctx(dq, synthetic=synthetic) as w:
                     await D.settle_dir_queue(w)
-                    await D.settle_real(w)
+                    await (D.drain_fake(w) if synthetic else D.settle_real(w))
                     for k, phase in enumerate(phases):
                         items = []
                         for batch in phase:
                             for op in batch:
-                                D.apply_op(op)
-                            items += await D.settle_real(w)
+                                if synthetic:
+                                    _synthetic_apply(w, op)
+                                else:
+                                    D.apply_op(op)
+                            items += await (D.drain_fake(w) if synthetic else D.settle_real(w))
+                        kernel = (sorted(d for d in set(w.inotify.added) if w.inotify.added.count(d) > w.inotify.removed.count(d))
+                                  if synthetic else D.kernel_labels(w))
                         res["phases"].append({"batches": phase, "items": items, "watches": D.watches_dump(w),
-                                              "kernel": D.kernel_labels(w)})
+                                              "kernel": kernel})
                         if k == len(phases) - 1:
                             D.backup_db(db, os.path.join(tmp, "b.db"))
                         try:
@@ -771,6 +845,19 @@ def _phased_signature(res):
     SUCCEEDED, its output OUTDATED vs BUILT)."""
     last = res["phases"][-1]
     diff = res["diff"]
+    # a new match that only the restart has, in an existing directory that is a key of `watches` while a proper
+    # ancestor of it is not: dir_loop did not record that missing ancestor, change_loop skipped it when it appeared
+    for sec, k, a, b in diff:
+        if sec == "nglobs":
+            for pth in sorted(set(b or []) - set(a or [])):
+                d = os.path.dirname(pth)
+                anc, q = [], os.path.dirname(d)
+                while q:
+                    anc.append(q)
+                    q = os.path.dirname(q)
+                if d in last["watches"] and any(q not in last["watches"] for q in anc) \
+                        and not any(it[1] == pth for it in last["items"]):
+                    return SIG_DEEP
     prim = [(k, a, b) for sec, k, a, b in diff if sec == "files" and a and b and not ({a[0], b[0]} <= {"BUILT", "OUTDATED"})]
     casc = [(sec, k, a, b) for sec, k, a, b in diff if not (sec == "files" and a and b and not ({a[0], b[0]} <= {"BUILT", "OUTDATED"}))]
     casc_ok = all((sec == "files" and a and b and a[0] == "BUILT" and b[0] == "OUTDATED" and a[1:] == b[1:])
@@ -791,10 +878,19 @@ def _phased_signature(res):
     return "watch-vs-restart:phased:other"
 
 
-def _run_phased(ctx):
-    for name, (spec, phases) in PHASED.items():
+def _run_phased(ctx, nrandom=0):
+    cases = [(n, c, False) for n, c in PHASED.items()]
+    deep = [(n, c) for n, c in PHASED.items() if n.startswith("deep-")] + \
+           [(f"deep-random-{k}", _rand_deep(ctx.rng)) for k in range(nrandom)]
+    # generated deep cases alternate between real inotify and the synthetic one (which needs no inotify instance);
+    # the named deep cases run on both
+    cases += [(n + "[synthetic-inotify]", c, True) for n, c in deep if not n.startswith("deep-random-")]
+    cases += [(n + ("[synthetic-inotify]" if k % 2 else ""), c, bool(k % 2))
+              for k, (n, c) in enumerate(d for d in deep if d[0].startswith("deep-random-"))]
+    seen = set()
+    for name, (spec, phases), synthetic in cases:
         try:
-            res = D.run(_phased_history(spec, phases), timeout=120)
+            res = D.run(_phased_history(spec, phases, synthetic=synthetic), timeout=120)
         except D.InotifyUnavailable:
             ctx.count("histories_skipped_no_inotify_instance")
             continue
@@ -805,13 +901,17 @@ def _run_phased(ctx):
         if not res["diff"]:
             continue
         sig = _phased_signature(res) if not res.get("error") else "watch-vs-restart:phased:watch-commit-exception"
+        if sig in seen:
+            continue
+        seen.add(sig)
         last = res["phases"][-1]
         ctx.add_failure("oracle", f"rebuild-vs-restart:{name}", sig,
                         f"{name}: after the phases {phases!r} (operations of one inner list applied before the watcher "
                         f"ran; a rebuild after every phase but the last) the last watch phase queued {last['items']!r} "
                         f"with watches {last['watches']!r} / kernel watches {last['kernel']!r}; the watch-phase commit "
                         f"and a restart on a copy of the same database and tree disagree: {res['diff']!r}",
-                        witness={"case": name, "phased": True, "project": spec, "phases": phases, "diff": res["diff"]})
+                        witness={"case": name, "phased": True, "synthetic": synthetic, "project": spec, "phases": phases,
+                                 "diff": res["diff"]})
 
 
 WS_DIRS = ["d1", "d1/sub", "d2", "d9", "d9/sub"]
@@ -826,7 +926,7 @@ WS_NAMED = {
 }
 
 
-async def _watchset_case(batches):
+async def _watchset_case(batches, requests=()):
     """Directory operations only (the project's directories hold no files, its static files are MISSING):
     the real AsyncInotifyWrapper on real inotify versus model/WatchSet.v run_batches."""
     with tempfile.TemporaryDirectory() as tmp:
@@ -844,12 +944,20 @@ async def _watchset_case(batches):
                     dirs0 = sorted(p.rstrip("/") for p, c in D.snapshot_tree(".").items() if c is None)
                     w0 = D.watches_dump(w)
                     k0 = D.kernel_labels(w)
+                    # directories handed to the REAL dir_loop (model: WatchSet.dir_requests with the generated
+                    # dir_loop_program), possibly with several missing levels
+                    from path import Path
+                    for rq in requests:
+                        dq.put_nowait(Path(rq))
+                    await D.settle_dir_queue(w)
+                    wr, kr = D.watches_dump(w), D.kernel_labels(w)
                     items, applied = [], []
                     for batch in batches:
                         done = [op for op in batch if D.apply_op(op)]
                         applied.append(done)
                         items += await D.settle_real(w)
-                    return {"dirs0": dirs0, "w0": w0, "k0": k0, "batches": applied, "items": items,
+                    return {"dirs0": dirs0, "w0": w0, "k0": k0, "requests": list(requests), "wr": wr, "kr": kr,
+                            "batches": applied, "items": items,
                             "w1": D.watches_dump(w), "k1": D.kernel_labels(w),
                             "dirs1": sorted(p.rstrip("/") for p, c in D.snapshot_tree(".").items() if c is None)}
 
@@ -872,15 +980,28 @@ def _watchset_term(r):
         return f"OMove {coq_str(op[1])} {coq_str(op[2])}"
     bs = coq_list([coq_list([cop(op) for op in b]) for b in r["batches"]])
     items = coq_list([_coq_item(k, p, False) for k, p in r["items"]])
-    return (f"let s := run_batches (mk_sys {dirs} {len(ino)} {kw} [] {w0} []) {bs} in "
+    reqs = coq_list([coq_str(q) for q in r.get("requests", [])])
+    wr = coq_list([f"({coq_str(p)}, {coq_bool(v)})" for p, v in sorted(r.get("wr", r["w0"]).items())])
+    kr = coq_list([coq_str(p) for p in r.get("kr", r["k0"])])
+    return (f"let s0 := dir_requests (mk_sys {dirs} {len(ino)} {kw} [] {w0} []) {reqs} in "
+            f"let s := run_batches s0 {bs} in "
+            f"mseteq (map wkey (s_w s0)) (map wkey {wr}) && mseteq (map snd (s_kw s0)) {kr} && "
             f"mseteq (map wkey (s_w s)) (map wkey {w1}) && mseteq (map snd (s_kw s)) {coq_list([coq_str(p) for p in r['k1']])} "
             f"&& mseteq (map ikey (s_items s)) (map ikey {items}) "
             f"&& mseteq (map snd (s_dirs s)) {coq_list([coq_str(p) for p in r['dirs1']])}")
 
 
+WS_REQUESTS = ["d5/a", "d5/a/b", "d2/n/m/k", "d1/sub/k/l", "d9/sub", "d1", "d7"]
+WS_DEEP = {
+    "request-2-missing-levels": (["d5/a"], [[["mkdir", "d5"]], [["mkdir", "d5/a"]]]),
+    "request-3-missing-levels-at-once": (["d5/a/b"], [[["mkdir", "d5"], ["mkdir", "d5/a"], ["mkdir", "d5/a/b"]]]),
+    "request-4-missing-levels-below-existing": (["d2/n/m/k", "d2/n"], [[["mkdir", "d2/n"]], [["mkdir", "d2/n/m"], ["mkdir", "d2/n/m/k"]]]),
+}
+
+
 def _watchset_cases(ctx, nrandom):
     rng = ctx.rng
-    cases = list(WS_NAMED.items())
+    cases = [(n, b, ()) for n, b in WS_NAMED.items()] + [(n, b, rq) for n, (rq, b) in WS_DEEP.items()]
     for k in range(nrandom):
         bs = []
         for _ in range(rng.randint(1, 4)):
@@ -894,11 +1015,17 @@ def _watchset_cases(ctx, nrandom):
                 else:
                     b.append(["mv", rng.choice(WS_DIRS), rng.choice(WS_DIRS)])
             bs.append(b)
-        cases.append((f"ws-random-{k}", bs))
+        rqs = rng.sample(WS_REQUESTS, k=rng.choice([0, 1, 1, 2]))
+        if rqs and rng.random() < 0.7:
+            # create the requested levels top-down inside the history
+            parts = rqs[0].split("/")
+            mk = [["mkdir", "/".join(parts[:i + 1])] for i in range(len(parts))]
+            bs = [[op] for op in mk] + bs if rng.random() < 0.5 else [mk] + bs
+        cases.append((f"ws-random-{k}", bs, rqs))
     checks, descr = [], []
-    for name, bs in cases:
+    for name, bs, rqs in cases:
         try:
-            r = D.run(_watchset_case(bs), timeout=120)
+            r = D.run(_watchset_case(bs, rqs), timeout=120)
         except D.InotifyUnavailable:
             ctx.count("histories_skipped_no_inotify_instance")
             continue
@@ -911,6 +1038,8 @@ def _watchset_cases(ctx, nrandom):
         clob = sorted(p for p in r["k1"] if not r["w1"].get(p, False))
         ctx.case(("watchset", repr(r["batches"])), nontrivial=any(r["batches"]))
         ctx.count("watchset_cases")
+        if r.get("requests"):
+            ctx.count("watchset_cases_with_requested_directories")
         if stale:
             ctx.count("watchset_installed_entry_for_missing_directory")
         if clob:
@@ -1022,7 +1151,7 @@ def correspondence(ctx):
 
 def oracle(ctx):
     _run_scripted(ctx, _random_scripted(ctx, ctx.scale(25, 400)))
-    _run_phased(ctx)
+    _run_phased(ctx, ctx.scale(12, 150))
     checks, descr = _run_histories(ctx, ctx.scale(40, 400))
     if ctx.stats.get("histories_skipped_no_inotify_instance"):
         ctx.notes.append(f"{ctx.stats['histories_skipped_no_inotify_instance']} histories skipped: no free inotify "
@@ -1130,7 +1259,7 @@ def replay(ctx, obj):
     elif w.get("sweep"):
         _model_sweep(ctx)
     elif w.get("phased"):
-        res = D.run(_phased_history(w["project"], w["phases"]), timeout=120)
+        res = D.run(_phased_history(w["project"], w["phases"], synthetic=bool(w.get("synthetic"))), timeout=120)
         print("diff:", res["diff"])
         if res["diff"]:
             ctx.add_failure("oracle", f"rebuild-vs-restart:{w.get('case')}", obj["failure"]["signature"],
